@@ -18,7 +18,7 @@ extern "C" __attribute__((used)) const char* __asan_default_options() { return "
 extern "C" __attribute__((used)) const char* __ubsan_default_options() { return "print_stacktrace=1:halt_on_error=1"; }
 
 enum Cipher { WEP40 = 0, WEP104 = 1, TKIP = 2, CCMP = 3 };
-struct Bss { int id; Mac bssid; std::string ssid, pass; int cipher; Bytes wepkey; Bytes pmk; };
+struct Bss { int id; Mac bssid; std::string ssid, pass; int cipher; Bytes wepkey; Bytes pmk; bool unreg; Bss() : id(0), cipher(0), unreg(false) {} };
 struct KeyRec { int id, bss; Mac sta; Bytes ptk; int cipher; uint8_t anonce[32], snonce[32]; };     // ground truth of one completed or attempted key
 
 static const char* PASSES[4] = { "password1", "correct horse", "Induction", "libtinstest" };
@@ -106,7 +106,9 @@ struct WlanEngine : Engine {
         int cfgmode = (int)cfg.below(3);   // 0: psk+ssid, beacons teach the bssid; 1: psk+ssid+bssid; 2: keys supplied directly
         p.cfg.set("strict", strict ? 1 : 0).set("cfgmode", cfgmode).set("wrap", cfg.chance(0.6) ? "radiotap" : "dot11").set("loss", fmt("%.3f", w.loss)).set("retryp", fmt("%.3f", w.retry_p));
         int nb = (int)cfg.small(1, 3); w.bss.resize(nb);
-        for (int i = 0; i < nb; ++i) { Bss& b = w.bss[i]; b.id = i; b.bssid = Mac::of((uint8_t)(0x10 + i)); b.bssid.b[0] = 0; b.bssid.b[1] = 0x1b; int pi = (int)cfg.below(2) + (i % 2) * 2; b.pass = PASSES[pi]; b.ssid = SSIDS[pi];   /* one passphrase per network name (an ESS may have several BSSIDs) */ b.cipher = (int)cfg.pick(std::vector<int>{ WEP40, WEP104, TKIP, TKIP, CCMP, CCMP, CCMP }); b.wepkey = wl.bytes(b.cipher == WEP40 ? 5 : 13); if (b.cipher >= TKIP) b.pmk = pmk_cached(b.pass, b.ssid); }
+        for (int i = 0; i < nb; ++i) { Bss& b = w.bss[i]; b.id = i; b.bssid = Mac::of((uint8_t)(0x10 + i)); b.bssid.b[0] = 0; b.bssid.b[1] = 0x1b; int pi = (int)cfg.below(2) + (i % 2) * 2; b.pass = PASSES[pi]; b.ssid = SSIDS[pi];   /* one passphrase per network name (an ESS may have several BSSIDs) */ b.cipher = (int)cfg.pick(std::vector<int>{ WEP40, WEP104, TKIP, TKIP, CCMP, CCMP, CCMP }); b.wepkey = wl.bytes(b.cipher == WEP40 ? 5 : 13); // a network the decrypter is not told about: its handshakes and traffic are seen by the tap, nothing of it may be decrypted
+            if (b.cipher >= TKIP && cfg.chance(0.15)) { b.unreg = true; b.pass = "foreignpass"; b.ssid = "foreign"; w.faults["fault.unregistered_network"]++; }
+            if (b.cipher >= TKIP) b.pmk = pmk_cached(b.pass, b.ssid); }
         std::vector<std::unique_ptr<Station> > stas;
         for (int i = 0; i < nb; ++i) { int ns = (int)cfg.small(1, 4); for (int s = 0; s < ns; ++s) { Mac m = Mac::of((uint8_t)(0x40 + stas.size())); m.b[0] = 0; m.b[1] = 0x0d; m.b[2] = (uint8_t)cfg.below(3); std::unique_ptr<Station> st(new Station(w, w.bss[i], (int)stas.size(), m));
                 bool wrong = w.bss[i].cipher >= TKIP && cfg.chance(0.12); st->pmk_sta = wrong ? pmk_cached(PASSES[(cfg.below(3) + 1) % 4], w.bss[i].ssid + "x") : w.bss[i].pmk; if (wrong) w.faults["fault.station_with_wrong_passphrase"]++; st->fresh_snonce = cfg.chance(0.5); st->proc_delay = (int64_t)cfg.range(100, 4000); stas.push_back(std::move(st)); } }
@@ -118,7 +120,7 @@ struct WlanEngine : Engine {
             if (s->b.cipher >= TKIP) { w.q.after(t0, [s]() { s->start_handshake(); }); if (cfg.chance(0.2)) { int64_t t1 = t0 + 150000 + (int64_t)cfg.below(300000); w.q.after(t1, [s, &w]() { w.faults["fault.rekey"]++; s->start_handshake(); }); } }
             int nd = (int)cfg.small(1, tier == "thorough" ? 30 : 10);
             for (int i = 0; i < nd; ++i) {
-                int64_t t = t0 - 3000 + (int64_t)cfg.below(600000); size_t plen = payload_len(); Bytes payload = wl.bytes(plen); bool ip_payload = cfg.chance(0.4); if (ip_payload) { std::string dsc; payload = gen::ip_random(wl, false, dsc); } bool from_ap = cfg.chance(0.5), qos = cfg.chance(0.4); uint8_t tid = (uint8_t)cfg.below(8); bool retry = cfg.chance(0.1), mf = cfg.chance(0.05); uint8_t frag = mf ? (uint8_t)cfg.below(4) : 0;
+                int64_t t = t0 - 3000 + (int64_t)cfg.below(600000); size_t plen = payload_len(); Bytes payload = wl.bytes(plen); bool ip_payload = cfg.chance(0.4); if (ip_payload) { std::string dsc; payload = gen::ip_random(wl, false, dsc); } bool from_ap = cfg.chance(0.5), qos = cfg.chance(0.4); uint8_t tid = (uint8_t)cfg.below(16); bool retry = cfg.chance(0.1), mf = cfg.chance(0.05); uint8_t frag = mf ? (uint8_t)cfg.below(4) : 0;
                 int kindsel = (int)cfg.below(20); uint16_t et = ip_payload ? 0x0800 : (cfg.chance(0.5) ? 0x88b5 : 0x9000); uint64_t fseed = cfg.next();   /* unknown ethertypes keep the payload opaque */
                 w.q.after(t, [=, &w]() {
                     Rng fr(fseed); Bss& b = s->b; DataSpec d; d.from_ds = from_ap; d.to_ds = !from_ap; d.qos = qos; d.tid = tid; d.retry = retry; d.more_frag = mf; d.frag = frag; d.seq = from_ap ? s->seq_ap++ : s->seq_sta++;
@@ -157,7 +159,7 @@ struct WlanEngine : Engine {
         // replays of old-key frames after a rekey: re-insert earlier data frames of a station at the end
         { std::vector<TapRec> extra; for (auto& r : w.tap) if (r.kind == "data" && r.bad.empty() && cfg.chance(0.03)) { TapRec x = r; x.t = w.q.now + 1000; x.kind = "data-replayed"; extra.push_back(x); w.faults["fault.replayed_old_frame"]++; } for (auto& x : extra) { x.ord = ++w.ord; w.tap.push_back(x); } }
         std::stable_sort(w.tap.begin(), w.tap.end(), [](const TapRec& a, const TapRec& b) { return a.t != b.t ? a.t < b.t : a.ord < b.ord; });
-        for (auto& b : w.bss) { KV k; k.set("bss", b.id).set("bssid", Bytes(b.bssid.b, b.bssid.b + 6)).set("ssid", b.ssid).set("pass", [&]() { std::string q = b.pass; for (char& c : q) if (c == ' ') c = '_'; return q; }()).set("cipher", b.cipher).set("wepkey", b.wepkey); p.truth.push_back("bss " + k.line()); }
+        for (auto& b : w.bss) { KV k; k.set("bss", b.id).set("bssid", Bytes(b.bssid.b, b.bssid.b + 6)).set("ssid", b.ssid).set("pass", [&]() { std::string q = b.pass; for (char& c : q) if (c == ' ') c = '_'; return q; }()).set("cipher", b.cipher).set("wepkey", b.wepkey).set("unreg", b.unreg ? 1 : 0); p.truth.push_back("bss " + k.line()); }
         for (auto& s : stas) { KV k; k.set("sta", s->id).set("bss", s->b.id).set("mac", Bytes(s->mac.b, s->mac.b + 6)).set("wrongpass", s->pmk_sta != s->b.pmk ? 1 : 0); p.truth.push_back("sta " + k.line()); }
         for (auto& kr : w.keys) { KV k; k.set("key", kr.id).set("bss", kr.bss).set("mac", Bytes(kr.sta.b, kr.sta.b + 6)).set("ptk", kr.ptk).set("cipher", kr.cipher).set("an", Bytes(kr.anonce, kr.anonce + 32)).set("sn", Bytes(kr.snonce, kr.snonce + 32)); p.truth.push_back("key " + k.line()); }
         for (auto& r : w.tap) { KV k; k.set("t", r.t).set("k", r.kind).set("bss", r.bss).set("sta", r.sta).set("kid", r.kid).set("bad", r.bad.empty() ? "-" : r.bad).set("pt", r.plain).set("f", r.frame); p.steps.push_back(k.line()); }
@@ -173,7 +175,7 @@ struct WlanEngine : Engine {
         for (auto& kv : p.cfg.v) if (kv.first.compare(0, 6, "fault.") == 0) st.ctr[kv.first] += strtoull(kv.second.c_str(), 0, 10);
         const bool strict = p.cfg.num("strict"); const int cfgmode = (int)p.cfg.num("cfgmode"); const bool wrap = p.cfg.str("wrap") == "radiotap";
         std::map<int, Bss> bss; std::map<int, KeyRec> keys; std::map<int, std::pair<int, Mac> > stas;
-        for (auto& t : p.truth) { if (t.compare(0, 4, "bss ") == 0) { KV k(t.substr(4)); Bss b; b.id = (int)k.num("bss"); Bytes m = k.bytes("bssid"); memcpy(b.bssid.b, m.data(), 6); b.ssid = k.str("ssid"); b.pass = k.str("pass"); for (char& c : b.pass) if (c == '_') c = ' '; b.cipher = (int)k.num("cipher"); b.wepkey = k.bytes("wepkey"); if (b.cipher >= TKIP) b.pmk = pmk_cached(b.pass, b.ssid); bss[b.id] = b; }
+        for (auto& t : p.truth) { if (t.compare(0, 4, "bss ") == 0) { KV k(t.substr(4)); Bss b; b.id = (int)k.num("bss"); Bytes m = k.bytes("bssid"); memcpy(b.bssid.b, m.data(), 6); b.ssid = k.str("ssid"); b.pass = k.str("pass"); for (char& c : b.pass) if (c == '_') c = ' '; b.cipher = (int)k.num("cipher"); b.wepkey = k.bytes("wepkey"); b.unreg = k.num("unreg"); if (b.cipher >= TKIP) b.pmk = pmk_cached(b.pass, b.ssid); bss[b.id] = b; }
             else if (t.compare(0, 4, "key ") == 0) { KV k(t.substr(4)); KeyRec r; r.id = (int)k.num("key"); r.bss = (int)k.num("bss"); Bytes m = k.bytes("mac"); memcpy(r.sta.b, m.data(), 6); r.ptk = k.bytes("ptk"); r.cipher = (int)k.num("cipher"); Bytes a = k.bytes("an"), s = k.bytes("sn"); memcpy(r.anonce, a.data(), 32); memcpy(r.snonce, s.data(), 32); keys[r.id] = r; }
             else if (t.compare(0, 4, "sta ") == 0) { KV k(t.substr(4)); Mac m; Bytes mb = k.bytes("mac"); memcpy(m.b, mb.data(), 6); stas[(int)k.num("sta")] = std::make_pair((int)k.num("bss"), m); } }
         // ---- SUT set-up
@@ -183,10 +185,11 @@ struct WlanEngine : Engine {
         wpa.ap_found_callback([&cb](const std::string& ssid, const HWAddress<6>& b) { cb.ap.push_back(ssid + "|" + b.to_string()); });
         std::set<std::string> psk_done;
         for (auto& kv : bss) { const Bss& b = kv.second; if (b.cipher <= WEP104) { wep.add_password(HWAddress<6>(b.bssid.b), std::string(b.wepkey.begin(), b.wepkey.end())); continue; }
+            if (b.unreg) continue;
             if (cfgmode == 0) { if (!psk_done.count(b.ssid)) { wpa.add_ap_data(b.pass, b.ssid); psk_done.insert(b.ssid); } } else if (cfgmode == 1) wpa.add_ap_data(b.pass, b.ssid, HWAddress<6>(b.bssid.b)); }
-        if (cfgmode == 2) for (auto& kv : keys) { const KeyRec& k = kv.second; Crypto::WPA2Decrypter::addr_pair ap(HWAddress<6>(bss[k.bss].bssid.b), HWAddress<6>(k.sta.b)); Bytes ptk80 = k.ptk; ptk80.resize(80, 0); /* the last key of a station wins, as with a rekey */ wpa.add_decryption_keys(ap, Crypto::WPA2::SessionKeys(Crypto::WPA2::SessionKeys::ptk_type(ptk80.begin(), ptk80.end()), k.cipher == CCMP)); }
+        if (cfgmode == 2) for (auto& kv : keys) { const KeyRec& k = kv.second; if (bss[k.bss].unreg) continue; Crypto::WPA2Decrypter::addr_pair ap(HWAddress<6>(bss[k.bss].bssid.b), HWAddress<6>(k.sta.b)); Bytes ptk80 = k.ptk; ptk80.resize(80, 0); /* the last key of a station wins, as with a rekey */ wpa.add_decryption_keys(ap, Crypto::WPA2::SessionKeys(Crypto::WPA2::SessionKeys::ptk_type(ptk80.begin(), ptk80.end()), k.cipher == CCMP)); }
         std::map<std::string, int> direct_key;   // cfgmode 2: (bss,sta) -> kid registered last
-        if (cfgmode == 2) for (auto& kv : keys) direct_key[fmt("%d|", kv.second.bss) + hex(kv.second.sta.b, 6)] = kv.first;
+        if (cfgmode == 2) for (auto& kv : keys) if (!bss[kv.second.bss].unreg) direct_key[fmt("%d|", kv.second.bss) + hex(kv.second.sta.b, 6)] = kv.first;
         // ---- reference handshake tracker B5
         std::map<std::string, RefSess> ref; std::set<std::string> ap_known; uint64_t sig = 0xC09; int idx = -1; bool judged = false; int64_t last_t = 0; std::string order_sig;
         std::set<int> tap_seen_nonces_for_kid;
@@ -199,7 +202,7 @@ struct WlanEngine : Engine {
             Bytes e; std::string skey;
             if (f.ok && f.type == 2 && !f.protected_ && is_eapol_body(f.body, e)) {
                 EapolKey ek = parse_eapol(e); const uint8_t* sta = f.from_ds ? f.a1 : f.a2; skey = hex(f.bssid(), 6) + "|" + hex(sta, 6); RefSess& r = ref[skey]; int m = ek.msg(); order_sig += (char)('0' + m);
-                bool ap_ok = cfgmode == 1 || (cfgmode == 0 && ap_known.count(hex(f.bssid(), 6)));
+                bool ap_ok = !b.unreg && (cfgmode == 1 || (cfgmode == 0 && ap_known.count(hex(f.bssid(), 6))));
                 if (m == 1) { if (!r.have || ek.replay > r.rc1) { r.have = true; r.stage = 1; r.rc1 = ek.replay; memcpy(r.an, ek.nonce, 32); st.inc("probe.ref_m1_new_attempt"); } else st.inc("probe.ref_m1_duplicate_ignored"); }
                 else if (m == 2) { if (r.have && ek.replay == r.rc1 && r.stage == 1) { memcpy(r.sn, ek.nonce, 32); r.stage = 2; } else if (r.have && r.stage >= 2) st.inc("probe.ref_m2_duplicate_ignored"); }
                 else if (m == 3) { if (r.have && r.stage == 2) { r.stage = 3; r.rc3 = ek.replay; } else if (r.have && r.stage == 3 && ek.replay > r.rc3) { r.rc3 = ek.replay; st.inc("probe.ref_m3_retransmitted_before_m4"); } else if (r.have && r.stage == 3) st.inc("probe.ref_m3_duplicate_ignored"); }
@@ -232,6 +235,7 @@ struct WlanEngine : Engine {
                         may = true; must = strict && known_now; }
                 }
             }
+            if (b.unreg) { may = false; must = false; }
             if (!parseable) must = false;
             if (got) {
                 st.inc("probe.frame_decrypted");
